@@ -297,6 +297,130 @@ def run_scenarios(task):
     return out
 
 
+
+# ------------------------------------------------------------------ testbench order: three cooperating testbenches
+# Each testbench is (wait, act): wait in none | delay | chg_x | chg_k ; act in setx | setk | get. x and k are plain signals that only
+# testbenches write. "At each point in time, all of the non-waiting testbenches are executed in the order in which they were added"
+# (Simulator.add_testbench): two readings of that sentence are modelled -- the engine's sweep (first to last, repeated while one is
+# non-waiting) and lowest-index-first. An observation must be the log of one of them; where both agree there is exactly one legal log.
+TB_WAITS = ("none", "delay", "chg_x", "chg_k")
+TB_ACTS = ("setx", "setk", "get")
+TB_DELAY = 2
+
+
+def tb3_reference(scripts, sweep, snapshot=False):
+    """sweep=True: first to last, repeated; sweep=False: always the lowest-index non-waiting one. snapshot=True is NOT a legal reading
+    (a testbench woken during a sweep waits for the next one); it only measures how many cases can tell the difference."""
+    val = {"x": 0, "k": 0}
+    pc = [0] * len(scripts)            # 0: before wait, 1: waiting / before act, 2: done
+    waiting = [None] * len(scripts)    # None (non-waiting) | ("delay", t) | ("chg", name)
+    log = []
+    now = 0
+
+    def run_tb(i):
+        while True:
+            if pc[i] == 0:
+                pc[i] = 1
+                w = scripts[i][0]
+                if w == "delay":
+                    waiting[i] = ("delay", now + TB_DELAY)
+                    return
+                if w in ("chg_x", "chg_k"):
+                    waiting[i] = ("chg", w[-1])
+                    return
+            elif pc[i] == 1:
+                pc[i] = 2
+                a = scripts[i][1]
+                if a == "get":
+                    log.append((i, "get", now, val["x"], val["k"]))
+                else:
+                    name = a[-1]
+                    if val[name] != 1:
+                        val[name] = 1
+                        for j, wj in enumerate(waiting):
+                            if wj == ("chg", name):
+                                waiting[j] = None
+                    log.append((i, a, now, val["x"], val["k"]))
+            else:
+                log.append((i, "end", now, val["x"], val["k"]))
+                waiting[i] = ("done",)
+                return
+
+    while True:
+        progressed = True
+        while progressed:
+            progressed = False
+            ready = [i for i in range(len(scripts)) if waiting[i] is None]
+            for i in range(len(scripts)):
+                if waiting[i] is None and (not snapshot or i in ready):
+                    run_tb(i)
+                    progressed = True
+                    if not sweep:
+                        break
+        times = [w[1] for w in waiting if w and w[0] == "delay"]
+        if not times:
+            return tuple(log)
+        now = min(times)
+        for i, w in enumerate(waiting):
+            if w == ("delay", now):
+                waiting[i] = None
+
+
+def tb3_real(scripts):
+    from amaranth.hdl import Module, Signal
+    from amaranth.sim import Simulator
+    m = Module()
+    x = Signal(name="x")
+    k = Signal(name="k")
+    z = Signal(name="z")
+    m.d.comb += z.eq(x ^ k)
+    log = []
+    sig = {"x": x, "k": k}
+
+    def make(i, script):
+        async def tb(ctx):
+            w, a = script
+            t = lambda: ctx.elapsed_time().femtoseconds
+            if w == "delay":
+                await ctx.delay(period(TB_DELAY))
+            elif w in ("chg_x", "chg_k"):
+                await ctx.changed(sig[w[-1]])
+            if a == "get":
+                log.append((i, "get", t(), ctx.get(x), ctx.get(k)))
+            else:
+                ctx.set(sig[a[-1]], 1)
+                log.append((i, a, t(), ctx.get(x), ctx.get(k)))
+            log.append((i, "end", t(), ctx.get(x), ctx.get(k)))
+        return tb
+    with warnings.catch_warnings():
+        warnings.simplefilter("ignore")
+        sim = Simulator(m)
+        for i, sc in enumerate(scripts):
+            sim.add_testbench(make(i, sc))
+
+        async def horizon(ctx):          # added last: keeps the timeline alive up to the horizon, never non-waiting before it
+            await ctx.delay(period(3 * TB_DELAY))
+        sim.add_testbench(horizon)
+        sim.run_until(period(3 * TB_DELAY))
+    return tuple((i, tag, tt // FS, xv, kv) for i, tag, tt, xv, kv in log)
+
+
+def run_tb3(task):
+    out = {"cov": {"tb_order_cases": 0, "tb_order_unique_reading": 0, "tb_order_wakeups_between": 0}, "samples": [], "violations": []}
+    for scripts in task:
+        legal = {tb3_reference(scripts, True), tb3_reference(scripts, False)}
+        try:
+            real = tb3_real(scripts)
+        except Exception as ex:
+            real = ("raised", type(ex).__name__, str(ex)[:80])
+        out["cov"]["tb_order_cases"] += 1
+        out["cov"]["tb_order_unique_reading"] += len(legal) == 1
+        out["cov"]["tb_order_wakeups_between"] += tb3_reference(scripts, True, snapshot=True) not in legal
+        if real not in legal:
+            out["violations"].append({"sig": f"tb-order3:{scripts}", "what": f"three testbenches {scripts}: observed {real}; in added order: {sorted(legal)}",
+                                      "payload": {"tb3": [list(sc) for sc in scripts]}})
+    return out
+
 def order_violation(log):
     """both testbenches waiting for the same trigger wake at the same instant; tb0 must log first"""
     seen_at = {}
@@ -329,6 +453,11 @@ def run(rep):
     cfgs = list(scenarios(rep.quick))
     bound = rep.pick(1, 2)
     tasks = rotate([(ch, bound, rep.pick(400, 700)) for ch in chunks(cfgs, 6)], rep.seed)
+    scripts1 = list(itertools.product(TB_WAITS, TB_ACTS))
+    tb3 = list(itertools.product(scripts1, repeat=3)) + list(itertools.product(scripts1, repeat=4))
+    for part in pmap(run_tb3, chunks(tb3, 702), rep.procs):
+        rep.merge(part)
+    rep.require(rep.cov.get("tb_order_unique_reading", 0) > 500 and rep.cov.get("tb_order_wakeups_between", 0) > 10, "testbench-order cases with one legal log, and cases that tell in-order execution from deferred execution")
     for part in pmap(run_scenarios, tasks, rep.procs):
         m = part["cov"].pop("distinct_outcomes_max")
         rep.merge(part)
@@ -339,13 +468,21 @@ def run(rep):
                "posedge, negedge, changed}; explored: every resolution of the iteration order of the ready-process set, the active-trigger set and the "
                "commit set with at most `deviation_bound` deviations from insertion order; states = executions run, transitions = choice points resolved; "
                "traces_validated_against_impl = scenarios re-run on the unmodified engine; every scenario is also repeated after Simulator.reset() and must "
-               "give the same observations; the initial value of ca rotates over 0..2 so that the comb-replacement process has to act at time 0")
+               "give the same observations; the initial value of ca rotates over 0..2 so that the comb-replacement process has to act at time 0; "
+               "tb_order_cases = every choice of 3 and of 4 testbenches from 12 (wait, act) scripts over two testbench-only signals, observed log "
+               "compared with the logs of the two readings of 'non-waiting testbenches execute in the order added' (tb_order_unique_reading: both agree; "
+               "tb_order_wakeups_between: cases in which deferring a testbench woken during a sweep would change the log)")
     rep.setcov("exhaustive", rep.cov.get("capped", 0) == 0)
     rep.require(rep.cov.get("scenarios_with_real_choice", 0) > rep.cov.get("scenarios", 0) // 2, "choice points with >= 2 alternatives were observed")
     rep.require(rep.cov.get("schedules", 0) > 2 * rep.cov.get("scenarios", 1), "more than one schedule per scenario executed")
 
 
 def replay(payload):
+    if "tb3" in payload:
+        scripts = tuple(tuple(sc) for sc in payload["tb3"])
+        legal = {tb3_reference(scripts, True), tb3_reference(scripts, False)}
+        real = tb3_real(scripts)
+        return [] if real in legal else [f"observed {real}; in added order: {sorted(legal)}"]
     cfg = payload["cfg"]
     cfg["scripts"] = tuple(tuple(tuple(op) for op in s) for s in cfg["scripts"])
     sc = Scenario(cfg)
